@@ -373,7 +373,7 @@ theorem openChunk_headless {cfg : Cfg} {data : Bytes} (h : Headless cfg data) (i
     exact ⟨none, this⟩
   · have hp := parse_cut' (rs := []) AllWF.nil hr hne ⟨t, htne, e⟩
     have := openChunk_of_parse (cfg := cfg) (id := id) hp
-    simp only [encAll_nil, List.nil_append] at this
+    simp only [encAll_nilP, List.nil_append] at this
     rw [this]
     exact ⟨some 0, by simp [chunkResult, ht, offsetsFrom]⟩
 
